@@ -19,26 +19,40 @@ Fixpoint list_eqb {A} (eqb : A -> A -> bool) (a b : list A) : bool :=
   | _, _ => false
   end.
 
+(* a config entry encodes a Go map: compare such entries as configurations *)
+Definition entry_equiv (a b : entry) : bool :=
+  if (e_typ a =? entryConfig) && (e_typ b =? entryConfig) then
+    match config_of_entry a, config_of_entry b with
+    | Some x, Some y => config_eqb x y
+    | _, _ => entry_eqb a b
+    end
+  else entry_eqb a b.
+
 Definition round_eqb (a b : roundst) : bool :=
   (rd_ordinal a =? rd_ordinal b) && (rd_last a =? rd_last b) && Bool.eqb (rd_finished a) (rd_finished b).
+Definition pend_eqb (a b : pendupd) : bool :=
+  (pu_viewprev a =? pu_viewprev b) && (pu_last a =? pu_last b) && (pu_commit a =? pu_commit b) &&
+  Bool.eqb (pu_voter a) (pu_voter b).
 Definition repl_eqb (a b : replst) : bool :=
   (rp_id a =? rp_id b) && (rp_match a =? rp_match b) && Bool.eqb (rp_nocontact a) (rp_nocontact b) &&
   Bool.eqb (rp_voter a) (rp_voter b) && (rp_action a =? rp_action b) && opt_eqb round_eqb (rp_round a) (rp_round b) &&
   (rp_removelte a =? rp_removelte b) && (rp_gmatch a =? rp_gmatch b) && (rp_next a =? rp_next b) &&
-  (rp_ldrlast a =? rp_ldrlast b) && (rp_viewprev a =? rp_viewprev b) && Bool.eqb (rp_gvoter a) (rp_gvoter b).
-Definition newent_eqb (a b : newent) : bool := (ne_index a =? ne_index b) && (ne_typ a =? ne_typ b).
+  (rp_ldrlast a =? rp_ldrlast b) && (rp_viewprev a =? rp_viewprev b) && Bool.eqb (rp_gvoter a) (rp_gvoter b) &&
+  (rp_commit a =? rp_commit b) && opt_eqb pend_eqb (rp_pending a) (rp_pending b).
+Definition newent_eqb (a b : newent) : bool :=
+  (ne_index a =? ne_index b) && (ne_typ a =? ne_typ b) && (ne_tid a =? ne_tid b).
 Definition ldr_eqb (a b : ldrst) : bool :=
   Bool.eqb (ld_present a) (ld_present b) && Bool.eqb (ld_voter a) (ld_voter b) && (ld_numvoters a =? ld_numvoters b) &&
   (ld_start a =? ld_start b) && list_eqb newent_eqb (ld_queue a) (ld_queue b) && list_eqb repl_eqb (ld_repls a) (ld_repls b) &&
   Bool.eqb (ld_tr_active a) (ld_tr_active b) && (ld_tr_term a =? ld_tr_term b) && (ld_tr_target a =? ld_tr_target b) &&
   Bool.eqb (ld_tr_resp a) (ld_tr_resp b) && Bool.eqb (ld_tr_newterm a) (ld_tr_newterm b) &&
-  (ld_waitstable a =? ld_waitstable b) && (ld_removelte a =? ld_removelte b).
+  (ld_tr_tid a =? ld_tr_tid b) && list_eqb N.eqb (ld_waitstable a) (ld_waitstable b) && (ld_removelte a =? ld_removelte b).
 
 (* [m] is the model's state, [g] the implementation's.  Equal field by field,
    except st_flushed where the model carries a lower bound. *)
 Definition nstate_eqb (m g : nstate) : bool :=
   (st_cid m =? st_cid g) && (st_nid m =? st_nid g) && (st_term m =? st_term g) && (st_voted m =? st_voted g) &&
-  (st_logprev m =? st_logprev g) && list_eqb entry_eqb (st_log m) (st_log g) && (st_flushed m <=? st_flushed g) &&
+  (st_logprev m =? st_logprev g) && list_eqb entry_equiv (st_log m) (st_log g) && (st_flushed m <=? st_flushed g) &&
   (st_lastidx m =? st_lastidx g) && (st_lastterm m =? st_lastterm g) && (st_snapidx m =? st_snapidx g) &&
   (st_snapterm m =? st_snapterm g) && config_eqb (st_snapcfg m) (st_snapcfg g) &&
   config_eqb (st_committed m) (st_committed g) && config_eqb (st_latest m) (st_latest g) &&
@@ -52,7 +66,7 @@ Definition nstate_eqb (m g : nstate) : bool :=
 Definition diff_fields (m g : nstate) : list string :=
   let f (b : bool) (n : string) := if b then [] else [n] in
   (f (st_term m =? st_term g) "term"%string ++ f (st_voted m =? st_voted g) "votedFor"%string ++
-   f (st_logprev m =? st_logprev g) "log.prev"%string ++ f (list_eqb entry_eqb (st_log m) (st_log g)) "log"%string ++
+   f (st_logprev m =? st_logprev g) "log.prev"%string ++ f (list_eqb entry_equiv (st_log m) (st_log g)) "log"%string ++
    f (st_flushed m <=? st_flushed g) "flushed"%string ++ f (st_lastidx m =? st_lastidx g) "lastLogIndex"%string ++
    f (st_lastterm m =? st_lastterm g) "lastLogTerm"%string ++ f (st_snapidx m =? st_snapidx g) "snaps.index"%string ++
    f (st_snapterm m =? st_snapterm g) "snaps.term"%string ++ f (config_eqb (st_snapcfg m) (st_snapcfg g)) "snapshot.config"%string ++
@@ -62,10 +76,59 @@ Definition diff_fields (m g : nstate) : list string :=
    f (Bool.eqb (st_closed m) (st_closed g)) "closed"%string ++ f (st_fsmidx m =? st_fsmidx g) "fsm.index"%string ++
    f (st_fsmterm m =? st_fsmterm g) "fsm.term"%string ++ f (Bool.eqb (st_aborted m) (st_aborted g)) "electionAborted"%string ++
    f (st_votesneeded m =? st_votesneeded g)%Z "votesNeeded"%string ++ f (Bool.eqb (st_cndtransfer m) (st_cndtransfer g)) "cnd.transfer"%string ++
-   f (opt_eqb ldr_eqb (st_ldr m) (st_ldr g)) "leader-state"%string)%list.
+   match st_ldr m, st_ldr g with
+   | Some a, Some b =>
+       f (Bool.eqb (ld_present a) (ld_present b)) "ldr.node.present"%string ++ f (Bool.eqb (ld_voter a) (ld_voter b)) "ldr.node.Voter"%string ++
+       f (ld_numvoters a =? ld_numvoters b) "ldr.numVoters"%string ++ f (ld_start a =? ld_start b) "ldr.startIndex"%string ++
+       f (list_eqb newent_eqb (ld_queue a) (ld_queue b)) "ldr.queue"%string ++
+       f (list_eqb N.eqb (map rp_id (ld_repls a)) (map rp_id (ld_repls b))) "ldr.repls(ids)"%string ++
+       f (list_eqb (fun x y => (rp_match x =? rp_match y) && Bool.eqb (rp_nocontact x) (rp_nocontact y) && Bool.eqb (rp_voter x) (rp_voter y) && (rp_action x =? rp_action y) && (rp_removelte x =? rp_removelte y)) (ld_repls a) (ld_repls b)) "repl.status"%string ++
+       f (list_eqb (fun x y => opt_eqb round_eqb (rp_round x) (rp_round y)) (ld_repls a) (ld_repls b)) "repl.round"%string ++
+       f (list_eqb (fun x y => (rp_gmatch x =? rp_gmatch y) && (rp_next x =? rp_next y) && (rp_ldrlast x =? rp_ldrlast y) && (rp_viewprev x =? rp_viewprev y) && Bool.eqb (rp_gvoter x) (rp_gvoter y)) (ld_repls a) (ld_repls b)) "repl.goroutine"%string ++
+       f (list_eqb (fun x y => (rp_commit x =? rp_commit y)) (ld_repls a) (ld_repls b)) "repl.req.commit"%string ++
+       f (list_eqb (fun x y => opt_eqb pend_eqb (rp_pending x) (rp_pending y)) (ld_repls a) (ld_repls b)) "repl.pending"%string ++
+       f (Bool.eqb (ld_tr_active a) (ld_tr_active b) && (ld_tr_term a =? ld_tr_term b) && (ld_tr_target a =? ld_tr_target b) && Bool.eqb (ld_tr_resp a) (ld_tr_resp b) && Bool.eqb (ld_tr_newterm a) (ld_tr_newterm b) && (ld_tr_tid a =? ld_tr_tid b)) "ldr.transfer"%string ++
+       f (list_eqb N.eqb (ld_waitstable a) (ld_waitstable b)) "ldr.waitStable"%string ++ f (ld_removelte a =? ld_removelte b) "ldr.removeLTE"%string
+   | None, None => []
+   | _, _ => ["leader-state present/absent"%string]
+   end)%list.
 
+Definition reply_eqb (a b : reply) : bool :=
+  match a, b with
+  | RpNil, RpNil | RpNotCommitReady, RpNotCommitReady | RpStaleConfig, RpStaleConfig | RpInvalid, RpInvalid
+  | RpServerClosed, RpServerClosed | RpQuorumUnreachable, RpQuorumUnreachable | RpTimeout, RpTimeout
+  | RpTransferNoVoter, RpTransferNoVoter | RpTransferSelf, RpTransferSelf
+  | RpTransferTargetNonvoter, RpTransferTargetNonvoter | RpTransferInvalidTarget, RpTransferInvalidTarget
+  | RpTargetRejected, RpTargetRejected | RpSnapThreshold, RpSnapThreshold | RpNoUpdates, RpNoUpdates => true
+  | RpVal x, RpVal y => x =? y
+  | RpConfig x, RpConfig y => config_eqb x y
+  | RpNotLeader x, RpNotLeader y => Bool.eqb x y
+  | RpInProgress x, RpInProgress y => x =? y
+  | _, _ => false
+  end.
+Definition appendreq_eqb (a b : appendreq) : bool :=
+  (aq_term a =? aq_term b) && (aq_src a =? aq_src b) && (aq_previdx a =? aq_previdx b) &&
+  (aq_prevterm a =? aq_prevterm b) && (aq_commit a =? aq_commit b) && list_eqb entry_equiv (aq_entries a) (aq_entries b).
+Definition lmsg_eqb (a b : lmsg) : bool :=
+  match a, b with
+  | MTimeoutNow x, MTimeoutNow y => x =? y
+  | MReplUpdate i k v, MReplUpdate i' k' v' => (i =? i') && (k =? k') && (v =? v')
+  | MAppend i q, MAppend i' q' => (i =? i') && appendreq_eqb q q'
+  | MNeedSnapshot i, MNeedSnapshot i' => i =? i'
+  | _, _ => false
+  end.
+(* replies are compared as a set keyed by task id (completion order inside one step is not observable);
+   a timeout-now target chosen among several ready voters is accepted whichever it is when the
+   implementation does not expose it (target 0 in the observed message) *)
+Definition replies_eqb (a b : list (N * reply)) : bool :=
+  set_eqb (fun x y => (fst x =? fst y) && reply_eqb (snd x) (snd y)) a b.
+Definition msgs_eqb (m g : list lmsg) : bool :=
+  list_eqb (fun x y => match x, y with
+                       | MTimeoutNow _, MTimeoutNow 0 => true
+                       | _, _ => lmsg_eqb x y end) m g.
 Definition obs_eqb (a b : nobs) : bool :=
-  (ob_result a =? ob_result b) && (ob_respterm a =? ob_respterm b) && (ob_resplast a =? ob_resplast b).
+  (ob_result a =? ob_result b) && (ob_respterm a =? ob_respterm b) && (ob_resplast a =? ob_resplast b) &&
+  replies_eqb (lo_replies (ob_out a)) (lo_replies (ob_out b)) && msgs_eqb (lo_msgs (ob_out a)) (lo_msgs (ob_out b)).
 
 (* outcome observed on the implementation *)
 Inductive gout :=
@@ -85,7 +148,7 @@ Definition check_with (opt : options) (pre : nstate) (ev : nevent) (out : gout) 
 
 (* map-iteration oracle: the case agrees if some visiting order reproduces it *)
 Definition orders (opt : options) : list options :=
-  map (fun o => mkOptions (o_shutdown_on_remove opt) (o_quorum_wait opt) o) (perms (o_order opt)).
+  map (fun o => mkOptions (o_shutdown_on_remove opt) (o_quorum_wait opt) (o_slow opt) (o_newprev opt) o) (perms (o_order opt)).
 
 Definition check_ncase (c : ncase) : N :=
   match c with
